@@ -159,6 +159,12 @@ def run(prop, tier, replay):
         proof_broken = {'stage': 'axiom audit', 'undischarged': sorted(set(obligations) - set(discharged)), 'detail': detail}
     if not obligations:
         raise MachineryError(f'no theorems found for {prop}')
+    rechecked = None
+    if tier == 'thorough' and b.get('prop_ok') and not replay:
+        ok, tail = common.recheck(prop)
+        rechecked = ok
+        if not ok and not proof_broken:
+            proof_broken = {'stage': 'leanchecker', 'log_tail': tail}
     say(f'proof obligations: {len(discharged)}/{len(obligations)} discharged, axioms ok, build {"ok" if b["ok"] else "BROKEN"}')
 
     findings = [f for f in common.load_findings() if f['property'] == prop]
@@ -193,6 +199,18 @@ def run(prop, tier, replay):
             violations.append(f'VIOLATION property={prop} replay={path}')
     # the generated stream
     n = fam.count(prop, tier)
+    # source drift: a modelled file whose structure differs from the one the model was last validated against widens the quick
+    # stream (never a violation by itself - a harmless rewrite drifts too)
+    drift = {'drift': [], 'pinned': False}
+    try:
+        sys.path.insert(0, os.path.join(common.VERIF, 'tools'))
+        import fingerprint
+        drift = fingerprint.drift(FAMILY_OF[prop])
+    except Exception as e:  # noqa
+        drift = {'drift': [], 'pinned': False, 'error': str(e)}
+    if drift['drift'] and tier == 'quick':
+        n *= 3
+        say(f'source drift in {", ".join(drift["drift"])}: quick stream widened to {n} cases')
     cases = [fam.random_case(prop, common.case_rng(seed, i, prop), tier) for i in range(n)]
     if hasattr(fam, 'extra_cases'):
         cases += fam.extra_cases(prop, tier, seed)
@@ -236,6 +254,8 @@ def run(prop, tier, replay):
         'distribution': fam.distribution(prop, cases, outcomes) if hasattr(fam, 'distribution') else {},
         'extract': b.get('extract'),
         'proof_broken': proof_broken,
+        'leanchecker': rechecked,
+        'source_drift': drift,
         'exhaustive': False,
     }
     common.write_evidence(prop, tier, seed, t0, cov, len(violations))
